@@ -123,6 +123,11 @@ def setup(nx, ny, mask, rng, anchors, surfaces=1, amp=3):
         for v in vids:
             s = sides_of(g.a0[v], nx, ny)
             a = f"N{v}" if len(s) == 2 else (f"C{s[0]}" if len(s) == 1 else "S0")
+            if anchors == "random" and s:
+                # any classification is a legal input of the kernels: nodes and curves anywhere on the boundary
+                a = rng.choice([f"N{v}", f"C{s[0]}", f"C{s[-1]}", "C9"])
+            elif anchors == "random" and rng.random() < 0.15:
+                a = "C9"
             lines.append(f"wanchor v {v} {a}")
         for e in sorted({g.eid(d) for d in g.linked}):
             s = set(sides_of(g.org(e), nx, ny)) & set(sides_of(g.org(g.b[1][e]), nx, ny))
@@ -224,12 +229,49 @@ def configs(tier):
     return out
 
 
+def mesh_of(lines):
+    """the implementation's snapshot after `lines` (used to generate calls on meshes that are not plain grids)"""
+    _rc, out = hv.run_bin(hv.HCIMPL, "\n".join(lines + ["snap"]) + "\n")
+    k = len(lines)
+    return Mesh(out[k]) if k < len(out) and out[k].startswith("snap ") else None
+
+
+def refined(pre, g, rng, anchors, ncuts):
+    """the mesh after `ncuts` successful random cuts (re-anchored when the listed findings leave a cell bare)"""
+    for _ in range(ncuts):
+        e = rng.choice(sorted({g.eid(d) for d in g.linked}))
+        if anchors and g.b[2][e]:
+            continue        # cut_inner_edge never succeeds once VertexAnchor is registered
+        cand = pre + cut_lines(g, e, rng)
+        m = mesh_of(cand)
+        if m is None or not m.is_triangle_mesh() or not m.embedded():
+            continue
+        rep = repair_lines(m) if anchors else []
+        if rep:
+            cand = cand + rep
+            m = mesh_of(cand)
+        if m is not None and m.is_triangle_mesh() and m.embedded() and m.fully_anchored():
+            pre, g = cand, m
+    return pre, g
+
+
 def every_edge(tier, rng):
     cases = []
     reps = 1 if tier == "quick" else 4
+    variants = []
     for (nx, ny, mask, anchors, surfaces) in configs(tier):
         for rep in range(reps):
+            variants.append((nx, ny, mask, anchors, surfaces, rep, 0))
+            if nx * ny <= 6:
+                variants.append((nx, ny, mask, anchors, surfaces, rep, 1 + rep % 2))
+            if anchors and nx * ny <= 6:
+                variants.append((nx, ny, mask, "random", surfaces, rep, 0))
+    for (nx, ny, mask, anchors, surfaces, rep, ncuts) in variants:
+        if True:
             pre, g = setup(nx, ny, mask, rng, anchors, surfaces)
+            if ncuts:
+                pre, g = refined(pre, g, rng, anchors, ncuts)
+            rep = f"{rep}c{ncuts}{'r' if anchors == 'random' else ''}"
             for e in g.linked:
                 canonical = g.eid(e) == e
                 inner = g.b[2][e] != 0
@@ -408,11 +450,29 @@ def blocks(count, rng, tier):
     return cases
 
 
+UNIT_ANCH = ["wanchor v 1 N1", "wanchor v 2 N2", "wanchor v 3 N3", "wanchor v 6 C1", "wanchor e 1 C0", "wanchor e 2 S0",
+             "wanchor e 3 C3", "wanchor e 5 C1", "wanchor e 6 C2", "wanchor f 1 S0", "wanchor f 4 S0"]
+TWO_ANCH = ["wanchor v 1 N1", "wanchor v 2 N2", "wanchor v 3 C3", "wanchor v 6 C1", "wanchor v 9 N9", "wanchor v 12 N12",
+            "wanchor e 1 C0", "wanchor e 2 S0", "wanchor e 3 C3", "wanchor e 5 C1", "wanchor e 6 S0", "wanchor e 8 S0",
+            "wanchor e 9 C3", "wanchor e 11 C1", "wanchor e 12 C2", "wanchor f 1 S1", "wanchor f 4 S2", "wanchor f 7 S3",
+            "wanchor f 10 S4"]
+
+
 def directed():
     """the D9 witness of DESIGN §8 and the other listed findings on their smallest meshes"""
-    cases = []
-    cases.append(Case("d9-unit-square", ["grid 2 1 0 ncl 0 0 1 1 1 1", "snap", "swap 2", "snap", "wf"], oracle="c15", meta={"sig": "D9"}))
-    return cases
+    w = ["snap", None, "snap", "wf"]
+
+    def mk(cid, pre, op, sig):
+        return Case(cid, pre + [w[0], op] + w[2:], oracle="c15", meta={"sig": sig})
+    unit, unit_a = ["grid 2 1 0 ncl 0 0 1 1 1 1"], ["grid 2 1 224 ncl 0 0 1 1 1 1"] + UNIT_ANCH
+    return [
+        mk("d9-unit-square", unit, "swap 2", "D9"),
+        mk("d15a-1x2", ["grid 2 1 224 ncl 0 0 1 2 1 1"] + TWO_ANCH, "collapse 5", "D15a"),
+        mk("d15b-unit-square", unit_a + ["add 3"], "cutout 1 7 8 9", "D15b"),
+        mk("d15c-unit-square", unit + ["add 3"], "cutout 1 9 8 7", "D15c"),
+        mk("d15d-2x2-cut", ["grid 2 1 0 ncl 0 0 2 2 1 1", "add 6", "cutin 5 25 26 27 28 29 30"], "collapse 26", "D15d"),
+        mk("d15e-unit-square", unit_a, "collapse 5", "D15e"),
+    ]
 
 
 # ---------------------------------------------------------------------------------------------
@@ -420,8 +480,9 @@ def directed():
 def run(tier, seed):
     rng = random.Random(seed)
     NOTES.clear()
+    remesh.DEGENERATE[0] = 0
     parts = []
-    parts.append(("directed (D9 on unit_triangles(1))", hv.campaign(directed(), oracle_c15, max_report=10)))
+    parts.append(("directed (smallest witnesses of the listed findings)", hv.campaign(directed(), oracle_c15, max_report=10)))
     r1 = hv.campaign(every_edge(tier, rng), oracle_c15, max_report=100)
     parts.append(("every dart of every mesh x swap / cut / collapse", r1))
     nh, ops = (120, 30) if tier == "quick" else (1200, 30)
@@ -437,6 +498,11 @@ def run(tier, seed):
     res["violations"] = dedupe(res["violations"])
     res["stats"]["history_ops"] = r2["stats"]["history_ops"]
     res["stats"]["history_max_ops"] = r2["stats"]["history_max_ops"]
+    if remesh.DEGENERATE[0]:
+        res.setdefault("notes", []).append(
+            f"{remesh.DEGENERATE[0]} successful collapses (all in histories, on meshes whose vertices were moved by D9) left a zero-area "
+            "triangle at the new vertex: is_orbit_orientation_consistent compares signum()s and f64::signum(+0.0) = 1; counted as "
+            "outside general position, not as a violation")
     if NOTES:
         res.setdefault("notes", []).append(
             "calls inside the guard answered `retry` (not successes; map unchanged; in atomically_with_err they would wait forever): "
